@@ -38,7 +38,7 @@ Definition wf_wire_value (v : str) : bool := negb (memb 59 v) && negb (memb 32 v
 
 (* the complete tag section "@k[=v];k[=v]..." in key order *)
 Definition tag_piece (m : tagmap) (k : str) : str :=
-  k ++ match alookup k m with Some (_ :: _ as v) => 61 :: v | _ => [] end.
+  k ++ match alookup k m with Some ((_ :: _) as v) => 61 :: v | _ => [] end.
 Definition tag_section (m : tagmap) : str :=
   64 :: join semi (List.map (tag_piece m) (sort_strs (akeys m))).
 
